@@ -20,9 +20,10 @@ Record cflags := {
                                returns early and does NOT advance its comparison base [prev] *)
   cf_blind_repoint : bool;  (* true (pinned, F12b): a flush sets the latest pointer unconditionally;
                                false (repaired): only if it still names the version being removed *)
-  cf_shared_refs : bool     (* true (pinned, F12c): removing a duplicate version schedules ALL its reference keys, also when
-                               they are the very keys of the kept version (same recorded time: reference keys carry no
-                               batch index); false (repaired): such keys are skipped, as the second branch already does *)
+  cf_shared_refs : bool     (* true (pinned, F12c): reference keys of a version are scheduled for deletion also when another
+                               version of the entity has the same recorded time (reference keys carry no batch index, so
+                               they are that version's keys too: live keys or tombstones); false (repaired): such keys are
+                               skipped *)
 }.
 Definition cf_current : cflags := {| cf_stale_prev := true; cf_blind_repoint := true; cf_shared_refs := true |}.
 Definition cf_fixed : cflags := {| cf_stale_prev := false; cf_blind_repoint := false; cf_shared_refs := false |}.
@@ -60,25 +61,28 @@ Definition common_ref_weight (prev this : entry) : Z :=
                 | None => n
                 end) 0 (c_refs (en_c this)).
 
-(** deduplicationStrategy.eval over the versions after the first one; [prev] is the strategy memory *)
-Fixpoint entity_pass (cf : cflags) (eqb : content -> content -> bool) (prev : entry) (vs : list entry) : list instr :=
+(** deduplicationStrategy.eval over the versions after the first one; [prev] is the strategy memory.
+    [same v] = another version of the entity carries v's recorded time (several versions of one entity written by one
+    batch): reference keys carry no batch index, so v's reference keys are then also keys (live ones or tombstones) of
+    that other version. *)
+Fixpoint entity_pass (cf : cflags) (eqb : content -> content -> bool) (same : entry -> bool) (prev : entry) (vs : list entry) : list instr :=
   match vs with
   | [] => []
   | v :: vs' =>
     let is_last := match vs' with [] => true | _ => false end in
     if eqb (en_c prev) (en_c v) then
-      let same_time := Z.eqb (en_time prev) (en_time v) in
       {| i_del := Some (key_of v);
-         i_weight := if cf_shared_refs cf || negb same_time then 1 + 2 * ref_targets (en_c v) else 1;
+         i_weight := if cf_shared_refs cf || negb (same v) then 1 + 2 * ref_targets (en_c v) else 1;
          i_repoint := if is_last then Some (key_of prev) else None;
-         i_shared := cf_shared_refs cf && same_time && (0 <? ref_targets (en_c v)) |}
-      :: entity_pass cf eqb prev vs'
+         i_shared := cf_shared_refs cf && same v && (0 <? ref_targets (en_c v)) |}
+      :: entity_pass cf eqb same prev vs'
     else
-      let w := if Bool.eqb (c_del (en_c prev)) (c_del (en_c v)) then common_ref_weight prev v else 0 in
+      let w0 := if Bool.eqb (c_del (en_c prev)) (c_del (en_c v)) then common_ref_weight prev v else 0 in
+      let w := if cf_shared_refs cf || negb (same v) then w0 else 0 in
       if 0 <? w then
-        {| i_del := None; i_weight := w; i_repoint := None; i_shared := false |}
-        :: entity_pass cf eqb (if cf_stale_prev cf then prev else v) vs'
-      else entity_pass cf eqb v vs'
+        {| i_del := None; i_weight := w; i_repoint := None; i_shared := cf_shared_refs cf && same v |}
+        :: entity_pass cf eqb same (if cf_stale_prev cf then prev else v) vs'
+      else entity_pass cf eqb same v vs'
   end.
 
 (** versions of an entity in the snapshot.  Go iterates the JSON keys of (entity, dataset) in key
@@ -87,10 +91,13 @@ Fixpoint entity_pass (cf : cflags) (eqb : content -> content -> bool) (prev : en
 Definition versions_of (d : dstate) (id : uri) : list entry :=
   filter (fun e => Z.eqb (en_id e) id) (d_entries d).
 
+Definition shares_time (all : list entry) (v : entry) : bool :=
+  1 <? Z.of_nat (length (filter (fun e => Z.eqb (en_time e) (en_time v)) all)).
+
 Definition entity_instrs (cf : cflags) (eqb : content -> content -> bool) (d : dstate) (id : uri) : list instr :=
   match versions_of d id with
   | [] => []
-  | v :: vs => entity_pass cf eqb v vs
+  | v :: vs => entity_pass cf eqb (shares_time (v :: vs)) v vs
   end.
 
 (** [order] = the entities in the order of their latest-pointer keys (internal ids; an input of the model) *)
